@@ -549,7 +549,7 @@ func main() {
 		leafFamily(h)
 		argFamily(h)
 		exhaustiveFamily(h)
-		n := 20000
+		n := 16000
 		if h.Thorough() {
 			n = 200000
 		}
